@@ -188,11 +188,12 @@ def specRequest (active must : List PSpec) (ev : Nat) (rid : String) (log : List
   let bad (sig why : String) : Option (String × String) := some (sig, s!"request {rid} (event {ev}): {why}")
   if log.any (fun i => i.r != rid) then bad "foreign-request" s!"a handler was shown another request: {log.map (·.r)}"
   else if log.any (fun i => i.e != ev) then bad "wrong-event" s!"handlers saw events {log.map (·.e)}"
-  else if !dupFree names then bad "invoked-twice" s!"invocations {names}"
+  else if !dupFree names then bad "invoked-twice" s!"a plugin was invoked more than once: {names}"
   else if names.any (fun n => (find n).isNone) then bad "unknown-plugin" s!"invocations {names}"
   else
   let logged := names.filterMap find
-  if logged.any (fun p => !subscribedN p.mask ev) then bad "unsubscribed-invoked" s!"invocations {names}"
+  if logged.any (fun p => !subscribedN p.mask ev) then
+    bad "unsubscribed-invoked" s!"plugins not subscribed to the event were invoked: {(logged.filter (fun p => !subscribedN p.mask ev)).map (·.name)} (masks {(logged.filter (fun p => !subscribedN p.mask ev)).map (·.mask)})"
   else if !nondecreasing (logged.map (idxNum ·.idx)) then
     bad "index-order" s!"invoked in index order {logged.map (·.idx)}"
   else
